@@ -6,7 +6,9 @@ What is read from the *current* source tree (vlib.REPO) on every run and becomes
 has to be proved):
 
   community.py  TunnelCommunity.on_create      leading guard chain                          -> createRefused
+                                               guard chain after the await of the hook      -> createRecheckRefused
                 TunnelCommunity.should_join_circuit   the refusal comparison                -> joinRefused
+                TunnelCommunity.join_circuit   CreatedRequestCache before exit_sockets[id] = -> joinCacheFirst
                 TunnelCommunity.on_created     test of the relay branch (request matches)   -> createdMatches
                                                guard chain inside that branch               -> createdRefused
                                                remove_exit_socket(..., remove_now=<const>)  -> convertRemovesNow
@@ -194,6 +196,16 @@ def translate() -> tuple[str, dict]:
     if i >= len(stmts) or "self.should_join_circuit" not in ast.unparse(stmts[i]):
         raise TranslatorError("on_create: the guard chain is not followed by the should_join_circuit call")
     out.append(lean_fn("createRefused", params, body, "on_create returns before should_join_circuit / join_circuit"))
+    # the id is checked again after the await (the hook may have suspended the handler)
+    conds2, _, j2, stmts2 = guard_chain(stmts[i + 1:], "on_create (after the await)", v)
+    if not conds2:
+        raise TranslatorError("on_create: the circuit id is not checked again after `await self.should_join_circuit(...)`")
+    body2, used2 = disj(conds2, "on_create (after the await)", v)
+    need(used2, ["inCreated", "inCircuits", "inRelays", "inExits"], "on_create (after the await)")
+    if j2 >= len(stmts2) or "self.join_circuit" not in ast.unparse(stmts2[j2]):
+        raise TranslatorError("on_create: the re-check is not followed by the join_circuit call")
+    out.append(lean_fn("createRecheckRefused", ["inCreated", "inCircuits", "inRelays", "inExits"], body2,
+                       "on_create returns after should_join_circuit was awaited, before join_circuit"))
 
     # -- should_join_circuit + settings constants -------------------------------------------------------------------------
     ts = _cls(comm, "TunnelSettings")
@@ -216,6 +228,17 @@ def translate() -> tuple[str, dict]:
     out.append(f"def maxJoined : Nat := {consts['max_joined_circuits']}\n")
     out.append(f"def maxRelayEarly : Nat := {consts['_max_relay_early']}\n")
     out.append("/-- should_join_circuit refuses -/\ndef joinRefused (nRelays nExits : Nat) : Bool :=\n  decide (maxJoined ≤ nRelays + nExits)\n")
+
+    # -- join_circuit: the CreatedRequestCache is constructed (its constructor refuses a number in use) before the table is written
+    jc = _body(_fn(tc, "join_circuit").body)
+    i_cache = next((k for k, st in enumerate(jc) if "CreatedRequestCache(" in ast.unparse(st)), None)
+    i_table = next((k for k, st in enumerate(jc) if isinstance(st, ast.Assign)
+                    and ast.unparse(st.targets[0]).startswith("self.exit_sockets[")), None)
+    i_send = next((k for k, st in enumerate(jc) if "self.send_cell(" in ast.unparse(st)), None)
+    if i_cache is None or i_table is None or i_send is None or not (i_cache < i_send and i_table < i_send):
+        raise TranslatorError("join_circuit: expected the CreatedRequestCache, the exit_sockets assignment and then send_cell")
+    out.append("/-- join_circuit registers the CreatedRequestCache (which refuses an id that already has one) before it writes "
+               f"exit_sockets[id] -/\ndef joinCacheFirst : Bool := {'true' if i_cache < i_table else 'false'}\n")
 
     # -- on_created ------------------------------------------------------------------------------------------------------
     oc = _body(_fn(tc, "on_created").body)
